@@ -22,6 +22,28 @@ TRUSTED = []
 EV = "star_sharks::share_ff::Evaluator"
 
 
+def gen_nonzero(ctx, rule):
+    root = EV + "::gen"
+    eng, ret, st, fr = ctx.root(root)
+    at = ctx.fn(root).loc
+    evs = Q.calls(eng, EV + "::evaluate")
+    okg = bool(evs)
+    det = "no evaluate call"
+    for e in evs:
+        px = e["argv"][1]
+        fs = Q.closure(eng, eng.facts_at(e["frame"], e["block"]))
+        nz = [f for f in fs if f[0].op == "is_zero" and f[1:] == ("eq", 0) and f[0].args[0] is px]
+        ne = [f for f in fs if f[0].op == "eq" and f[1:] == ("eq", 0) and any(a is px for a in f[0].args) and
+              any(Q.contains(a, lambda t: t.op == "constdef" and "ZERO" in str(t.args[0])) for a in f[0].args)]
+        const_nz = Q.contains(px, lambda t: t.op == "constdef" and ("::ONE" in str(t.args[0]) or "share_ff::R" in str(t.args[0]))) and not Q.rngs(Q.leaves(px))
+        if not (nz or ne or const_nz):
+            okg = False
+        det = "point %s; dominating facts %s" % (S(px, 3), [Q.show_fact(f, 3) for f in fs])
+    ctx.add(rule, root + "#point-proven-nonzero", okg,
+            "a random share must be evaluated only at a point known to be non-zero on every path (a share at x = 0 is the secret itself): %s" % det,
+            evs[0]["at"] if evs else at, sample=det)
+
+
 def run(ctx):
     c02.poly_rules(ctx, "C06.R1")
 
@@ -76,23 +98,7 @@ def run(ctx):
     eng, ret, st, fr = ctx.root(root)
     okz = ret is not None and ret.op == "agg" and Q.contains(ret.args[1 + ix], lambda t: t.op == "constdef" and "ZERO" in str(t.args[0]))
     ctx.add("C06.R3", root + "#starts-at-zero", okz, "the iterator's counter must start at ZERO (first share at x = 1); found %s" % S(ret, 3), ctx.fn(root).loc)
-    root = EV + "::gen"
-    eng, ret, st, fr = ctx.root(root)
-    at = ctx.fn(root).loc
-    evs = Q.calls(eng, EV + "::evaluate")
-    okg = False
-    det = "no evaluate call"
-    if len(evs) == 1:
-        px = evs[0]["argv"][1]
-        fs = Q.closure(eng, eng.facts_at(evs[0]["frame"], evs[0]["block"]))
-        nz = [f for f in fs if f[0].op == "is_zero" and f[1:] == ("eq", 0) and f[0].args[0] is px]
-        ne = [f for f in fs if f[0].op == "eq" and f[1:] == ("eq", 0) and any(a is px for a in f[0].args) and
-              any(Q.contains(a, lambda t: t.op == "constdef" and "ZERO" in str(t.args[0])) for a in f[0].args)]
-        okg = bool(nz or ne) and bool(Q.rngs(Q.leaves(px)))
-        det = "point %s; dominating facts %s" % (S(px, 3), [Q.show_fact(f, 3) for f in fs])
-    ctx.add("C06.R3", root + "#point-proven-nonzero", okg,
-            "a random share must be evaluated only at a point known to be non-zero (a share at x = 0 is the secret itself): %s" % det,
-            evs[0]["at"] if evs else at, sample=det)
+    gen_nonzero(ctx, "C06.R3")
     ctx.floor("C06.R3", 3)
 
     # ---- R4 out-of-range refusal --------------------------------------------------------------------------------
